@@ -30,7 +30,21 @@ cvars == <<l, log, hmap, hroot, hyps, reopened, viol, nst, hmaps, dumps, nacked,
 
 CView == l
 
-N0 == [up |-> FALSE, len |-> 0, idx |-> 0, pend |-> 0, pidx |-> 0, restored |-> FALSE, restarted |-> FALSE, unknown |-> FALSE]
+N0 == [up |-> FALSE, len |-> 0, idx |-> 0, pend |-> 0, pidx |-> 0, restored |-> FALSE, restarted |-> FALSE, unknown |-> FALSE,
+       maybe |-> FALSE]   \* maybe: killed between compute and persist - the atomic write either landed or not
+
+(* A node killed inside db.Mutate holds either the state before the write or the state after it
+   (Cluster.tla: Crash is enabled in pc = "computed"; the write batch is atomic).  The first
+   observation after the restart tells which; any other state is not a prefix of the log. *)
+Landed(s)    == [s EXCEPT !.len = s.len + s.pend, !.idx = s.pidx, !.pend = 0, !.maybe = FALSE]
+NotLanded(s) == [s EXCEPT !.pend = 0, !.maybe = FALSE]
+Resolve(s, obsIdx, obsLen) ==
+  IF ~s.maybe THEN s
+  ELSE IF obsIdx = s.pidx /\ obsLen = s.len + s.pend THEN Landed(s)
+  ELSE IF obsIdx = s.idx /\ obsLen = s.len THEN NotLanded(s)
+  ELSE [NotLanded(s) EXCEPT !.unknown = TRUE]
+ResolveBad(s, obsIdx, obsLen) ==
+  s.maybe /\ ~(obsIdx = s.pidx /\ obsLen = s.len + s.pend) /\ ~(obsIdx = s.idx /\ obsLen = s.len)
 
 CInit == /\ l = 2 /\ log = <<>> /\ hmap = <<>> /\ hroot = D(NB) /\ hyps = <<>> /\ reopened = FALSE /\ viol = {}
          /\ nst = <<N0, N0, N0>> /\ hmaps = <<>> /\ dumps = <<>> /\ nacked = 0 /\ lost = {}
@@ -66,11 +80,14 @@ MentionFails(props, n, v0, ds) ==
 StepPBegin ==
   /\ Ev.a = "pbegin"
   /\ LET n == Ev.n
-         s == nst[n]
+         s0 == nst[n]
+         (* replay after a kill: the entry in flight is re-applied iff its write did not land *)
+         s == IF ~s0.maybe THEN s0
+              ELSE IF Ev.idx = s0.pidx /\ Ev.first = s0.len THEN NotLanded(s0) ELSE Landed(s0)
          m == Len(Ev.leaves)
          expPrev == IF s.len = 0 THEN 0 ELSE s.len - 1 IN
      /\ Mention(Ev.first, Ev.leaves)
-     /\ nst' = [nst EXCEPT ![n].pend = m, ![n].pidx = Ev.idx]
+     /\ nst' = [nst EXCEPT ![n] = [s EXCEPT !.pend = m, !.pidx = Ev.idx]]
      /\ viol' = viol \cup MentionFails({"C05", "C06"}, n, Ev.first, Ev.leaves)
           \cup (IF ~s.up THEN NTags({"C07"}, n, "a stopped node wrote to its store") ELSE {})
           \cup (IF s.pend # 0 THEN NTags({"C07"}, n, "two applies in flight") ELSE {})
@@ -122,14 +139,36 @@ StepAck ==
   /\ UNCHANGED <<reopened, dumps, nst>>
 
 (*-------------------------------------------------------- lifecycle ------*)
+StepBoot ==
+  /\ Ev.a = "boot"
+  /\ nst' = [nst EXCEPT ![Ev.n].up = TRUE, ![Ev.n].restarted = (nst[Ev.n].len > 0 \/ nst[Ev.n].idx > 0 \/ nst[Ev.n].maybe)]
+  /\ UNCHANGED <<viol, log, hmap, hroot, hyps, hmaps, reopened, dumps, nacked, lost>>
+
+StepKill ==
+  /\ Ev.a \in {"kill", "died"}
+  /\ nst' = [nst EXCEPT ![Ev.n].up = FALSE, ![Ev.n].maybe = (nst[Ev.n].pend > 0)]
+  /\ viol' = viol \cup (IF Ev.a = "died" THEN {Tag("C07", "node process died on its own [node " \o ToString(Ev.n) \o "]"),
+                                               Tag("C11", "node process died on its own [node " \o ToString(Ev.n) \o "]")} ELSE {})
+  /\ UNCHANGED <<log, hmap, hroot, hyps, hmaps, reopened, dumps, nacked, lost>>
+
+StepExit ==
+  /\ Ev.a = "exit"
+  /\ viol' = viol \cup (IF Ev.code # 0 THEN {Tag("C08", "process aborted at close [node " \o ToString(Ev.n) \o "]")} ELSE {})
+  /\ UNCHANGED <<nst, log, hmap, hroot, hyps, hmaps, reopened, dumps, nacked, lost>>
+
 StepStart ==
   /\ Ev.a = "start"
-  /\ LET n == Ev.n s == nst[n] IN
+  /\ LET n == Ev.n
+         bad == ~Ev.err /\ ResolveBad(nst[n], Ev.idx, Ev.version)
+         s == IF Ev.err THEN nst[n] ELSE Resolve(nst[n], Ev.idx, Ev.version) IN
      IF Ev.err
      THEN /\ nst' = nst
           /\ viol' = viol \cup NTags({"C08", "C07"}, n, "node failed to start")
-     ELSE /\ nst' = [nst EXCEPT ![n].up = TRUE, ![n].restarted = (s.len > 0 \/ s.idx > 0), ![n].pend = 0]
+     ELSE /\ nst' = [nst EXCEPT ![n] = [s EXCEPT !.up = TRUE, !.pend = 0,
+                                          !.len = (IF s.unknown THEN Ev.version ELSE s.len),
+                                          !.idx = (IF s.unknown THEN Ev.idx ELSE s.idx), !.unknown = FALSE]]
           /\ viol' = viol
+               \cup (IF bad THEN NTags({"C07"}, n, "state after the crash is neither the state before nor after the interrupted write") ELSE {})
                \cup (IF ~s.unknown /\ Ev.idx # s.idx THEN NTags({"C08", "C07"}, n, "applied index after restart differs from the persisted one") ELSE {})
                \cup (IF ~s.unknown /\ Ev.version # s.len THEN NTags({"C08", "C07", "C05"}, n, "version after restart differs from the persisted one") ELSE {})
   /\ UNCHANGED <<log, hmap, hroot, hyps, hmaps, reopened, dumps, nacked, lost>>
@@ -217,7 +256,7 @@ StepCInfo ==
 CNext ==
   /\ l <= Len(Trace)
   /\ l' = l + 1
-  /\ (StepPBegin \/ StepPEnd \/ StepAck \/ StepStart \/ StepStop \/ StepLoad \/ StepDump
+  /\ (StepPBegin \/ StepPEnd \/ StepAck \/ StepBoot \/ StepKill \/ StepExit \/ StepStart \/ StepStop \/ StepLoad \/ StepDump
       \/ StepNMember \/ StepNIncr \/ StepCReset \/ StepCInfo)
 
 CSpec == CInit /\ [][CNext]_cvars
